@@ -27,7 +27,13 @@ CONSTANTS
   Caps,        \* global queue capacities tried        (RuntimeOptions.AsyncSendQueueCapacity)
   ShardCaps,   \* per-shard queue capacities tried
   BatchMaxes,  \* batch limits tried                    (SessionOptions.AsyncSendBatchMaxRecords)
-  Modes        \* subset of {"shared", "separate"}: all sessions on one shard / one shard each
+  Modes,       \* subset of {"shared", "separate"}: all sessions on one shard / one shard each
+  Admission    \* granularity of sendExecutor.submit (see "fine-grained admission" below):
+               \*   "atomic"  the feed of one SEND is one step (closed check, registration, enqueue)
+               \*   "parked"  the code as written, two steps: [closed check + admitted.Add(1)] under
+               \*             admissionMu, later [capacity reservation + enqueue]
+               \*   "split"   a DEFECT VARIANT kept for reference (MC_split.cfg): the closed check
+               \*             alone, later [admitted.Add(1) + enqueue]; DrainStart may fall in between
 
 VARIABLES cfg, st, ev
 vars == <<cfg, st, ev>>
@@ -83,6 +89,7 @@ S0 == [queue    |-> [x \in Shards |-> <<>>],      \* admitted, not yet entering 
        ready    |-> [x \in Shards |-> {}],        \* batch positions whose result was produced
        flushed  |-> [x \in Shards |-> {}],        \* batch positions whose SENDACK was written
        doomed   |-> [x \in Shards |-> {}],        \* sessions the worker closes after a failed handler call
+       adm      |-> [s \in Sessions |-> "idle"],   \* a feed inside submit: idle | checked | registered
        draining |-> FALSE,                        \* sendExecutor.closed
        drained  |-> FALSE,
        pst      |-> [s \in Sessions |-> [i \in Issuers |-> "idle"]],  \* idle | issued | written
@@ -92,16 +99,16 @@ S0 == [queue    |-> [x \in Shards |-> <<>>],      \* admitted, not yet entering 
 Init ==
   /\ cfg \in {c \in [cap : Caps, scap : ShardCaps, bmax : BatchMaxes, mode : Modes] : c.scap <= c.cap}
   /\ st = S0
-  /\ ev = [a |-> "Init", cfg |-> cfg]
+  /\ ev = [a |-> "Init", cfg |-> cfg, adm |-> Admission]
 
 Queued(t) == FoldSet(LAMBDA x, acc : acc + Len(t.queue[x]), 0, Shards)
 Full(t, s) == Queued(t) >= cfg.cap \/ Len(t.queue[Sh(s)]) >= cfg.scap
 
 \* --- inbound: one SEND frame fed to the session (Server.onData -> dispatchSendFrameAsync).
-\* sendExecutor.submit is one critical section as far as the queue is concerned (admission
-\* fence, capacity reservation, enqueue), so the feed is one step here; a harness sees its
-\* start (Recv) and its return (RecvDone) as two events, hence two history updates.
-CanFeed(t, s)  == ~t.h.closed[s] /\ t.h.nrecv[s] < MaxSends
+\* Admission = "atomic": sendExecutor.submit taken as one step (admission fence, capacity
+\* reservation, enqueue); a harness sees its start (Recv) and its return (RecvDone) as two
+\* events, hence two history updates.  The two-step view of submit follows below.
+CanFeed(t, s)  == ~t.h.closed[s] /\ t.h.nrecv[s] < MaxSends /\ t.adm[s] = "idle"
 CanAdmit(t, s) == CanFeed(t, s) /\ ~t.draining /\ ~Full(t, s)
 DoAdmit(t, s)  ==
   LET n == t.h.nrecv[s] + 1 IN
@@ -109,10 +116,31 @@ DoAdmit(t, s)  ==
             !.h = HRecvDone(HRecv(@, s, n), s, n, "ok")]
 
 \* submit refused (admission closed or queue full): the gateway closes the session
-CanReject(t, s) == CanFeed(t, s) /\ (t.draining \/ Full(t, s))
+CanReject(t, s) == CanFeed(t, s) /\ (t.draining \/ (Admission = "atomic" /\ Full(t, s)))
 DoReject(t, s)  ==
   LET n == t.h.nrecv[s] + 1 IN
   [t EXCEPT !.h = HRecvDone(HClose(HRecv(@, s, n), s), s, n, "closed")]
+
+\* --- fine-grained admission (Admission # "atomic").  submit is two critical sections with
+\* code of the session object in between (asyncSendShardIndex reads Session.ID()):
+\*   FeedBegin  admissionMu { closed? ; admitted.Add(1) }      -> adm = "registered"
+\*   FeedEnd    reserve capacity, enqueue (or refuse: queue full; the registration is given back)
+\* A registered SEND is owned by the drain: DrainSends does not return before it completed.
+\* In the defect variant "split" FeedBegin is the closed check alone (adm = "checked") and the
+\* registration happens in FeedEnd, so a drain that starts in between does not wait for it.
+\* The session may be closed from outside while its feed is inside submit: the SEND is still
+\* enqueued (submit does not look at the session), it is just not "accepted" (RecvDone = closed).
+CanFeedBegin(t, s) == CanFeed(t, s) /\ ~t.draining
+DoFeedBegin(t, s)  == [t EXCEPT !.adm[s] = IF Admission = "split" THEN "checked" ELSE "registered",
+                                !.h = HRecv(@, s, t.h.nrecv[s] + 1)]
+CanFeedEnd(t, s)   == t.adm[s] # "idle"
+DoFeedEnd(t, s)    ==
+  LET n == t.h.nrecv[s] IN
+  IF Full(t, s)
+    THEN [t EXCEPT !.adm[s] = "idle", !.h = HRecvDone(HClose(@, s), s, n, "closed")]
+    ELSE [t EXCEPT !.adm[s] = "idle", !.queue[Sh(s)] = Append(@, [s |-> s, n |-> n]),
+                   !.h = HRecvDone(@, s, n, IF t.h.closed[s] THEN "closed" ELSE "ok")]
+FeedEndRes(t, s)   == IF Full(t, s) \/ t.h.closed[s] THEN "closed" ELSE "ok"
 
 \* --- dispatch: the shard's worker takes the next batch and calls the handler ---
 CanDispatch(t, x, k) == /\ t.disp[x] = <<>> /\ t.doomed[x] = {}
@@ -163,23 +191,34 @@ DoIssueDone(t, s, i)  == [t EXCEPT !.pst[s][i] = "idle", !.pn[s][i] = @ + 1,
 \* --- send draining (Server.DrainSends) ---
 CanDrainStart(t) == ~t.draining
 DoDrainStart(t)  == [t EXCEPT !.draining = TRUE, !.h = HDrainStarted(@)]
-DrainIdle(t)     == \A x \in Shards : t.queue[x] = <<>> /\ t.disp[x] = <<>> /\ t.doomed[x] = {}
+DrainIdle(t)     == /\ \A x \in Shards : t.queue[x] = <<>> /\ t.disp[x] = <<>> /\ t.doomed[x] = {}
+                    /\ \A s \in Sessions : t.adm[s] # "registered"
 CanDrainDone(t)  == t.draining /\ ~t.drained /\ DrainIdle(t)
 DoDrainDone(t)   == [t EXCEPT !.drained = TRUE, !.h = HDrainDone(@)]
 
 Quiescent(t) == /\ DrainIdle(t)
-                /\ \A s \in Sessions : \A i \in Issuers : t.pst[s][i] = "idle"
+                /\ \A s \in Sessions : t.adm[s] = "idle" /\ \A i \in Issuers : t.pst[s][i] = "idle"
 
 -------------------------------------------------------------------------------
 \* Actions.  `ev` is the event a harness records for the step.  Next is a flat disjunction of
 \* named actions (TLC reports coverage per disjunct).
 Admit ==
+  /\ Admission = "atomic"
   /\ \E s \in Sessions : CanAdmit(st, s) /\ st' = DoAdmit(st, s)
        /\ ev' = [a |-> "RecvDone", s |-> s, n |-> st.h.nrecv[s] + 1, res |-> [r |-> "ok"]]
   /\ UNCHANGED cfg
 Reject ==
   /\ \E s \in Sessions : CanReject(st, s) /\ st' = DoReject(st, s)
        /\ ev' = [a |-> "RecvDone", s |-> s, n |-> st.h.nrecv[s] + 1, res |-> [r |-> "closed"]]
+  /\ UNCHANGED cfg
+FeedBegin ==
+  /\ Admission # "atomic"
+  /\ \E s \in Sessions : CanFeedBegin(st, s) /\ st' = DoFeedBegin(st, s)
+       /\ ev' = [a |-> "Recv", s |-> s, n |-> st.h.nrecv[s] + 1]
+  /\ UNCHANGED cfg
+FeedEnd ==
+  /\ \E s \in Sessions : CanFeedEnd(st, s) /\ st' = DoFeedEnd(st, s)
+       /\ ev' = [a |-> "RecvDone", s |-> s, n |-> st.h.nrecv[s], res |-> [r |-> FeedEndRes(st, s)]]
   /\ UNCHANGED cfg
 DispatchBatch ==
   /\ \E x \in Shards : \E k \in 1..MaxSends * Cardinality(Sessions) :
@@ -230,7 +269,7 @@ DrainWaitDone ==
 Quiesce ==
   Quiescent(st) /\ ev.a # "Quiesce" /\ st' = st /\ ev' = [a |-> "Quiesce"] /\ UNCHANGED cfg
 
-Next == \/ Admit \/ Reject \/ DispatchBatch \/ Complete \/ WriteAck \/ HandlerDone \/ HandlerFail
+Next == \/ Admit \/ Reject \/ FeedBegin \/ FeedEnd \/ DispatchBatch \/ Complete \/ WriteAck \/ HandlerDone \/ HandlerFail
         \/ CloseDoomed \/ CloseSession \/ IssueFrame \/ WriteFrame \/ IssueDone
         \/ DrainStart \/ DrainWaitDone \/ Quiesce
 
@@ -263,10 +302,13 @@ C28_OutboundOrder ==
 C28_OutboundComplete ==
   [][ev'.a = "Quiesce" => \A s \in Sessions : Open(s) => st.h.pend[s] = {}]_vars
 
-\* After draining started no SEND fed afterwards is dispatched ...
+\* After draining started no SEND fed afterwards is dispatched, and once a DrainSends call has
+\* reported completion (returned nil) no SEND is dispatched at all: a SEND dispatched then is
+\* either new or was admitted earlier and had not completed when the drain said it had.
 C28_DrainFence ==
   [][ev'.a = "HStart" /\ st.h.drain # "no" =>
-       \A k \in 1..Len(ev'.items) : ev'.items[k].n <= st.h.fence[ev'.items[k].s]]_vars
+       /\ st.h.drain # "done"
+       /\ \A k \in 1..Len(ev'.items) : ev'.items[k].n <= st.h.fence[ev'.items[k].s]]_vars
 \* ... while the SENDs accepted before complete: when the drain wait returns no handler call is
 \* running and every accepted SEND of an open session has its SENDACK.
 C28_DrainCompletes ==
@@ -280,5 +322,6 @@ TypeOK ==
                          /\ st.h.pdone[s] \subseteq st.h.pend[s]
   /\ \A x \in Shards : st.flushed[x] \subseteq st.ready[x] /\ st.ready[x] \subseteq AllPos(st, x)
   /\ Queued(st) <= cfg.cap
+  /\ Admission = "atomic" => \A s \in Sessions : st.adm[s] = "idle"
 QueuedWithinShardCap == \A x \in Shards : Len(st.queue[x]) <= cfg.scap
 ===============================================================================
